@@ -264,4 +264,7 @@ class ZeroLinearOperator(LinearOperator):
         self: Float[LinearOperator, "... #M #N"],
         other: Union[Float[Tensor, "... #M #N"], Float[LinearOperator, "... #M #N"], float],
     ) -> Union[Float[LinearOperator, "... M N"], Float[Tensor, "... M N"]]:
+        if torch.is_tensor(other) or isinstance(other, LinearOperator):
+            # refuse what (dense) addition refuses
+            torch.broadcast_shapes(self.shape, other.shape)
         return other
